@@ -1115,10 +1115,17 @@ def condition_inventory(P, files):
         gx = None
         for bi, b in enumerate(body.B):
             t = b['term']
-            if b.get('cu') or t['k'] != 'switch' or t['d']['k'] not in ('copy', 'move') or t['d']['pl']['p']:
+            if b.get('cu'):
                 continue
-            l = t['d']['pl']['l']
-            if body.fn['locals'][l]['ty'] != 'bool' or len(t['ts']) != 1:
+            l = None
+            if t['k'] == 'switch' and t['d']['k'] in ('copy', 'move') and not t['d']['pl']['p']:
+                l = t['d']['pl']['l']
+                if body.fn['locals'][l]['ty'] != 'bool' or len(t['ts']) != 1:
+                    l = None
+            elif t['k'] == 'call' and re.search(r'bool::(then_some|then)$', _nogen(callee_path(t))) and t['args'] and \
+                    t['args'][0]['k'] in ('copy', 'move') and not t['args'][0]['pl']['p']:
+                l = t['args'][0]['pl']['l']        # `cond.then_some(x).ok_or(E)?` is the same check as `if !cond { return Err(E) }`
+            if l is None:
                 continue
             if gx is None:
                 gx = GuardExtractor(body)
